@@ -130,6 +130,46 @@ VP_HARNESS(h_next_attr_bytes)
   VP_WITNESS_IF(r == -1, "rejected");
 }
 
+/* ---- the built-in parser's entry: a caller buffer of any small size, and a truncated <topology ...> start tag (C06) ------------------------ */
+#ifndef NIMODE
+#define NIMODE 0      /* 0: buffers of 0..2 arbitrary bytes; 1: <topology version="2.0" followed by 0..2 arbitrary bytes */
+#endif
+static unsigned ni_runs, ni_ok, ni_refused;
+static void nolibxml_init_case(unsigned len)
+{
+  static const char head[] = "<topology version=\"2.0\"";
+  unsigned hl = NIMODE ? (unsigned) (sizeof head - 1) : 0, total = hl + len + (NIMODE ? 1 : 0);
+  char *src = malloc(total ? total : 1); VP_NONNULL(src);
+  for (unsigned i = 0; i < hl; i++) src[i] = head[i];
+  for (unsigned i = 0; i < len; i++) src[hl + i] = (char) vp_in_byte();
+  if (NIMODE) src[hl + len] = 0;
+  struct hwloc_xml_backend_data_s bd; memset(&bd, 0, sizeof bd);
+  errno = 0;
+  int r = hwloc_nolibxml_backend_init(&bd, NULL, src, (int) total);
+  ni_runs++;
+  VP_CHECK(r == 0 || r == -1, "nolibxml backend_init returns 0 or -1");
+  if (r) { ni_refused++; return; }
+  struct hwloc__xml_import_state_s st; memset(&st, 0, sizeof st); st.global = &bd;
+  int rr = bd.look_init(&bd, &st);
+  VP_CHECK(rr == 0 || rr == -1, "nolibxml look_init returns 0 or -1");
+  if (rr == 0) {
+    hwloc__nolibxml_import_state_data_t ns = (void *) st.data;
+    struct hwloc__nolibxml_backend_data_s *nb = bd.data;
+    VP_CHECK(ns->tagbuffer >= nb->buffer && ns->tagbuffer <= nb->buffer + total, "look_init: the cursor points inside the copy of the buffer");
+    ni_ok++;
+  } else ni_refused++;
+  bd.backend_exit(&bd);
+}
+VP_HARNESS(h_nolibxml_init)
+{
+  unsigned sel = (unsigned) vp_in_range(0, 2);
+  for (unsigned l = 0; l <= 2; l++) if (sel == l) nolibxml_init_case(l);
+#if NIMODE
+  VP_WITNESS_IF(ni_ok >= 1, "a complete start tag accepted");
+#endif
+  VP_WITNESS_IF(ni_refused >= 1, "a buffer refused");
+}
+
 /* ---- userdata: exported once, imported once, same name / bytes / length ------------------------------------------------------------ */
 /* recorded attribute names/values live in six separate one-dimensional arrays: with a 3-dimensional array inside the
  * structure CBMC 6.11 read back a different byte than the one stored (solver counterexample not reproducible natively) */
